@@ -39,7 +39,7 @@ CHECKS = {
          "DESIGN.md section 5 C01"),
  "C03": ("exploration",
          "three independent readings of every built blob (std decompressors + archive/tar, an independent spec reader, recomputed digests) + Go race detector",
-         "estargz.Build / Writer.AppendTar (one or two calls) / AppendTarLossLess over generated tars (plain, gzip, multi-member gzip, zstd, already-eStargz input) and an option product (chunk size, min-chunk-size, levels, gzip/zstd:chunked/external TOC, prioritized list, 1-8 workers). Each output is (1) fully decompressed with std/klauspost decoders and compared entry by entry with the input model, (2) parsed by internal/specread written from docs/estargz.md (every chunk read from its own offset/innerOffset, digests checked), (3) checked against recomputed TOC digest / DiffID / uncompressed size; lossless output must start with the input bytes. Parallel builds are re-run under the race detector. Holds on the cases executed.",
+         "estargz.Build / Writer.AppendTar (one or two calls) / AppendTarLossLess over generated tars (plain, gzip, multi-member gzip, zstd, already-eStargz input) and an option product (chunk size, min-chunk-size, levels, gzip/zstd:chunked/external TOC, prioritized list, 1-8 workers). Each output is (1) fully decompressed with std/klauspost decoders and compared entry by entry with the input model, (2) parsed by internal/specread written from docs/estargz.md (every chunk read from its own offset/innerOffset, digests checked), (3) checked against recomputed TOC digest / DiffID / uncompressed size; lossless output must start with the input bytes, including bytes after the end-of-archive marker (zero blocks / GNU record padding, plain and gzip sources). Parallel builds are re-run under the race detector. Holds on the cases executed.",
          "Trusted: Go's compress/gzip, archive/tar, encoding/json, klauspost zstd, SHA-256; internal/specread's reading of docs/estargz.md (zstd:chunked footer layout taken from the public format). Domain: whole-second mtimes, names <= 200 bytes, files <= 160 KiB.",
          "DESIGN.md section 5 C03"),
  "C07": ("exploration",
